@@ -36,6 +36,29 @@ func TestC08(t *testing.T) {
 			pair.Meta["huge.bin"] = FileMeta{From: "huge.bin", Edits: 1, Introduced: intro, Op: fmt.Sprintf("shift by %d at %d in %d MiB", ins, off, sz/MiB)}
 			Ev.Probe("file_several_times_the_4MiB_window_with_shifting_edit")
 		}
+		if rapid.IntRange(0, 11).Draw(rt, "wrapedit") == 0 {
+			// a file longer than the differ's window with a few bytes overwritten in the blocks the
+			// differ is busy with when its buffer wraps around (66 blocks in, then every 64)
+			sz := rapid.SampledFrom([]int{5 * MiB, 6*MiB + 777, 9 * MiB}).Draw(rt, "wrapsize")
+			data := Bytes(rapid.Uint64().Draw(rt, "wrapseed"), sz)
+			nw := append([]byte{}, data...)
+			k := 0
+			for _, blk := range []int{63, 64, 65, 66, 67, 128, 129, 130, 131} {
+				off := blk*BlockSize + rapid.IntRange(0, BlockSize-4).Draw(rt, "wrapoff")
+				if off+3 < sz && rapid.IntRange(0, 3).Draw(rt, "wrapuse") == 0 {
+					nw[off] ^= 0x11
+					nw[off+1] ^= 0x22
+					nw[off+2] ^= 0x33
+					k++
+				}
+			}
+			if k > 0 {
+				pair.Old["wrap.bin"] = &Entry{Kind: KFile, Data: data}
+				pair.New["wrap.bin"] = &Entry{Kind: KFile, Data: nw}
+				pair.Meta["wrap.bin"] = FileMeta{From: "wrap.bin", Edits: k, Introduced: 3 * k, Op: fmt.Sprintf("%d overwrites of 3 bytes around the wrap points of a %d MiB file", k, sz/MiB)}
+				Ev.Probe("overwrites_where_the_differs_buffer_wraps")
+			}
+		}
 		identical := rapid.IntRange(0, 5).Draw(rt, "identical") == 0
 		movedZ := false
 		if identical {
@@ -88,6 +111,8 @@ func TestC08(t *testing.T) {
 		srcSlice := drawSlicer(rt, "srcslice")
 		spec := drawSched(rt)
 		eofWith := rapid.Bool().Draw(rt, "eofwith")
+		// (and an empty read now and then: legal for an io.Reader, if discouraged)
+		zeroReads := rapid.SampledFrom([]int{0, 0, 0, 2, 3, 7}).Draw(rt, "zeroreads")
 		sigViaFile := rapid.Bool().Draw(rt, "sigviafile")
 		twice := rapid.IntRange(0, 3).Draw(rt, "writepatchtwice") == 0
 
@@ -100,7 +125,7 @@ func TestC08(t *testing.T) {
 		s := &Sched{Spec: spec, MaxSteps: 200000}
 		var dr *DiffResult
 		s.Run(t, func() {
-			dr = Diff(oldDir, newDir, comp, DiffSeams{SourceSlice: srcSlice, Yield: s.Yield, EOFWith: eofWith, SigViaFile: sigViaFile, Twice: twice})
+			dr = Diff(oldDir, newDir, comp, DiffSeams{SourceSlice: srcSlice, Yield: s.Yield, EOFWith: eofWith, ZeroReads: zeroReads, SigViaFile: sigViaFile, Twice: twice})
 		})
 		if s.BudgetExceeded {
 			return
